@@ -31,7 +31,7 @@ def content_catalog(rng, po_only_features=True):
     cat = copy.deepcopy(pogen.base_catalog())
     cat['header_comments'] = cat['header_comments'] if po_only_features else []
     ents = []
-    words = ['Zażółć', 'gęślą', 'jaźń', 'quick', 'fox', 'Příliš', 'žluťoučký', 'kůň', 'x', 'árvíztűrő']
+    words = ['Zażółć', 'gęślą', 'jaźń', 'quick', 'fox', 'Příliš', 'žluťoučký', 'kůň', 'x', 'árvíztűrő', 'PÓŁNOC', 'CÓŻ', 'ÓŁ']   # the last three: Latin-2 byte pairs that are also valid UTF-8
     for i in range(rng.randrange(1, 7)):
         src = ' '.join(rng.choice(words[3:5] + ['dog']) for _ in range(rng.randrange(1, 5))) + ' %d' % i
         dst = ' '.join(rng.choice(words) for _ in range(rng.randrange(1, 5)))
@@ -49,7 +49,7 @@ def content_catalog(rng, po_only_features=True):
         elif r < 0.5:
             e['msgstr'] = dst + rng.choice([' \x7f', ' �', ' \x01'])
         elif r < 0.6:
-            e['msgctxt'] = rng.choice(['menu', 'ctx ąę'])
+            e['msgctxt'] = rng.choice(['menu', 'ctx ąę', 'PÓŁNOC', 'CÓŻ'])
         elif r < 0.7:
             e = {'msgid': src, 'msgid_plural': src + 's', 'msgstr_plural': [dst, dst + ' b', dst + ' c'][:rng.choice([2, 3, 3])]}
             if po_only_features and rng.random() < 0.3:
@@ -80,7 +80,7 @@ def content_catalog(rng, po_only_features=True):
     return cat
 
 
-def respell(text, rng, wrap=True, blank=True, octal=True):
+def respell(text, rng, wrap=True, blank=True, octal=True, enc='utf-8'):
     """an independent re-spelling of PO text produced by pogen.render: re-wrap msgid/msgstr strings (not header lines),
     add blank lines, spell some non-ASCII characters as octal escapes of their UTF-8 bytes"""
     out = []
@@ -95,7 +95,7 @@ def respell(text, rng, wrap=True, blank=True, octal=True):
             head, _, rest = line.partition('"')
             body = rest[:-1]
             if octal:
-                body = ''.join(('\\%03o' * len(ch.encode('utf-8'))) % tuple(ch.encode('utf-8')) if (ord(ch) > 127 and rng.random() < 0.5) else ch for ch in body)
+                body = ''.join(('\\%03o' * len(ch.encode(enc))) % tuple(ch.encode(enc)) if (ord(ch) > 127 and rng.random() < 0.7) else ch for ch in body)
             if wrap and len(body) > 3 and rng.random() < 0.6:
                 # split at a safe point: not inside an escape sequence
                 cuts = [i for i in range(1, len(body)) if body[i - 1] != '\\' and not (i >= 2 and body[i - 2] == '\\') and not (i >= 3 and body[i - 3] == '\\') and not (i >= 4 and body[i - 4] == '\\') and body[i] != '\\' or False]
@@ -146,6 +146,7 @@ def job_po(payload):
             l2 = text.replace('charset=UTF-8', 'charset=ISO-8859-2').encode('iso-8859-2')
             variants.append(('latin2', l2))
             variants.append(('latin2+respell', respell(text.replace('charset=UTF-8', 'charset=ISO-8859-2'), rng, octal=False).encode('iso-8859-2')))
+            variants.append(('latin2+octal-escapes', respell(text.replace('charset=UTF-8', 'charset=ISO-8859-2'), rng, wrap=False, enc='iso-8859-2').encode('iso-8859-2')))
         except UnicodeEncodeError:
             pass
         if have('msgcat'):
@@ -190,8 +191,33 @@ def job_mo(payload):
             if p.returncode != 0 or not os.path.exists(mo):
                 return ('skipped', p.stderr.decode('utf-8', 'replace')[:100], [])
             outs[name] = tags_of(mo)
+        # the same key/value pairs written in other legal layouts by the harness's own serialiser (tools/harness/mo_lib.py):
+        # tables last / first / between the string pools, padding, shared suffixes, shuffled strings, either byte order, minor 0/1
+        try:
+            from harness import mo_lib
+            import random
+            lrng = random.Random(idx)
+            data = open(os.path.join(d, 'little', 'messages.mo'), 'rb').read()
+            rr = mo_lib.ref_read(data)
+            if rr[0] == 'ok':
+                kvs = [(data[ko:ko + kl], data[vo:vo + vl]) for (kl, ko, vl, vo) in rr[2]]
+                orders = [('poolA', 'poolB', 'hash', 'otab', 'ttab'), ('otab', 'poolA', 'ttab', 'poolB', 'hash'), ('hash', 'poolB', 'ttab', 'poolA', 'otab'),
+                          ('poolA', 'otab', 'poolB', 'ttab', 'hash')]
+                for k, order in enumerate(orders):
+                    L = mo_lib.Layout(be=bool(k % 2), major=0, minor=k % 2, sysdep=0, hash_words=[0, 3][k % 2], order=order, pad=[0, 5][k // 2],
+                                      share=bool(k // 2), shuffle=bool(k % 2), header_extra=0, trailing=[0, 0, 3, 0][k])
+                    blob, _info = mo_lib.serialise(kvs, L, lrng)
+                    sub = os.path.join(d, 'layout%d' % k)
+                    os.makedirs(sub, exist_ok=True)
+                    with open(os.path.join(sub, 'messages.mo'), 'wb') as f:
+                        f.write(blob)
+                    outs['layout%d' % k] = tags_of(os.path.join(sub, 'messages.mo'))
+        except ImportError:
+            pass
         res = []
-        for name in ('big', 'nohash', 'align8'):
+        for name in ('big', 'nohash', 'align8', 'layout0', 'layout1', 'layout2', 'layout3'):
+            if name not in outs:
+                continue
             if outs[name] != outs['little']:
                 res.append(('mo-layout:' + name, [t for t in outs['little'] if t not in outs[name]][:3], [t for t in outs[name] if t not in outs['little']][:3]))
         # PO vs MO
